@@ -87,6 +87,8 @@ def main():
             dd = os.path.join(VERIF, "seeded", name)
             if os.path.exists(os.path.join(dd, "patch.diff")):
                 meta = json.load(open(os.path.join(dd, "meta.json")))
+                if meta.get("obsolete"):
+                    continue   # no longer manifests on the current /repo (see its meta.json)
                 muts.append({"id": name, "property": meta["property"], "patch": os.path.join(dd, "patch.diff"),
                              "checks": meta.get("checks", [meta["property"]])})
         outname = "results_seeded.json"
